@@ -122,13 +122,13 @@ namespace nmtools::index
             auto normalize_roll_index = [](nm_index_t index, const auto axis) -> nm_index_t
             #endif
             {
-                if (index < 0) {
-                    return axis + index;
-                } else if ((nm_index_t)index >= (nm_index_t)axis) {
-                    return index - axis;
-                } else {
+                // the shift may exceed the extent any number of times (as numpy.roll): wrap with modulo
+                auto n = (nm_index_t)axis;
+                if (n <= 0) {
                     return index;
                 }
+                auto r = index % n;
+                return (r < 0) ? (r + n) : r;
             };
 
             if constexpr (is_none_v<axis_t>) {
